@@ -52,7 +52,7 @@ def detect(res, d, name, checks):
         try:
             for c in checks:
                 t0 = time.time()
-                rc, out = sh('VERIF_EVIDENCE_DIR=%s/.build/seed_evidence ./check %s --tier quick' % (V, c), cwd=V)
+                rc, out = sh('VERIF_SKIP_DEMOS=1 VERIF_EVIDENCE_DIR=%s/.build/seed_evidence ./check %s --tier quick' % (V, c), cwd=V)
                 vl = [l for l in out.splitlines() if l.startswith('VIOLATION')]
                 res['checks'][c] = {'exit': rc, 'violation_line': vl[0] if vl else None, 'wall_s': round(time.time() - t0, 1)}
                 if vl and 'replay=' in vl[0]:
